@@ -116,6 +116,12 @@ def r13_2_mk_cond(repo: Repo, rep: Report):
             gs = guard_set(m, rets[0])
             early = any(g.startswith("is_empty_bytes") or "v1.size() != v2.size()" in g for g in gs)
             found.setdefault(tag, []).append((v, early, rets[0]))
+    # round 7: every answer of mk_cond is one of the reviewed arms - a return outside the `bop == <tag>` chains (a
+    # shortcut for some operand representation) decides the relation by other means than the operator on (v1, v2)
+    recorded = {id(x[2]) for xs in found.values() for x in xs}
+    for r in body_walk(fn):
+        if isinstance(r, ast.Return) and id(r) not in recorded:
+            rep.bad("R13.2", m, r, f"return {src(r.value) if r.value else ''} under {sorted(guard_set(m, r))[:3]}", "mk_cond answers outside the reviewed operator arms / empty / size-mismatch cases (length and signedness of the operands are decided there)")
     for tag, (kind, op) in OPS.items():
         main = [x for x in found.get(tag, []) if not x[1]]
         if len(main) != 1:
